@@ -2,6 +2,13 @@
    C / C++ common subset.  NOT instrumented: every client access that the happens-before
    detector should see goes through client_rd()/client_wr(). */
 #include "harness.h"
+/* the mutex-word oracles use the tree's own names for the lock bits; should a change rename them, those oracles switch off
+   instead of breaking the build (the occupancy models do not depend on the word) */
+#if defined(MU_WLOCK) && defined(MU_RLOCK_FIELD) && defined(MU_SPINLOCK)
+#define HAVE_WORD_LAYOUT 1
+#else
+#define HAVE_WORD_LAYOUT 0
+#endif
 
 scen_t S;
 static scen_t S_saved;
@@ -144,10 +151,14 @@ static void check_held (const char *prop, const char *what, int mi, int writer) 
 		VIOL (prop, "held-mode", "%s returned but the in-library model does not show t%d holding mu%d in %s mode (model writer=t%d readers=%d)",
 		      what, nsim_self (), mi, writer ? "write" : "read", nsim_model_writer (W.mu[mi]), nsim_model_readers (W.mu[mi]));
 	}
+#if HAVE_WORD_LAYOUT
 	word = *(volatile uint32_t *) &W.mu[mi]->word;
 	if (writer ? ((word & MU_WLOCK) == 0 || (word & MU_RLOCK_FIELD) != 0) : ((word & MU_WLOCK) != 0 || (word & MU_RLOCK_FIELD) == 0)) {
 		VIOL (prop, "held-mode", "%s returned in %s mode but the mutex word is 0x%x", what, writer ? "write" : "read", word);
 	}
+#else
+	(void) word;
+#endif
 	/* the library's own view through its public assertions (they panic when the mutex is not held in that mode);
 	   every fourth harness step, so that the extra atomic loads do not dominate the schedule space */
 	if ((held_checks++ & 3) == 0) {
@@ -253,9 +264,13 @@ static void cond_context_check (const cond_arg *c) {
 		VIOL ("C06", "cond-during-write", "condition evaluated by t%d while t%d is inside a write section of mu%d", nsim_self (), w, c->mi);
 	}
 	if (nsim_fibre_in_func (nsim_self (), "nsync_mu_unlock_slow_")) nsim_probe (PR_COND_BY_OTHER);
+#if HAVE_WORD_LAYOUT
 	if ((word & (MU_WLOCK | MU_RLOCK_FIELD)) == 0) {
 		VIOL ("C06", "cond-unlocked", "condition evaluated by t%d while mu%d is not held at all (word 0x%x)", nsim_self (), c->mi, word);
 	}
+#else
+	(void) word;
+#endif
 }
 static int cond_ge (const void *v) {
 	const cond_arg *c = (const cond_arg *) v;
@@ -1000,9 +1015,13 @@ static void world_init (void) {
 	last_alloc_failed = 0;
 	for (i = 0; i < MAXMU; i++) HS[i].writer = -1;
 	for (t = 0; t < MAXT; t++) { thread_tid[t] = -1; thread_done[t] = 0; thread_op[t] = 0; }
+#if HAVE_WORD_LAYOUT
 	nsim_cfg.mu_wlock = MU_WLOCK;
 	nsim_cfg.mu_rlock_field = MU_RLOCK_FIELD;
 	nsim_cfg.mu_spinlock = MU_SPINLOCK;
+#else
+	nsim_cfg.mu_wlock = 0; nsim_cfg.mu_rlock_field = 0; nsim_cfg.mu_spinlock = 0;      /* word-based oracles off */
+#endif
 	client_key_made = 0;
 	if (S.family == FAM_LOCKONLY && S.p[5]) client_key_made = (nsim_sys_pthread_key_create (&client_key, &client_tls_dtor) == 0);
 	for (i = 0; i < S.nmu; i++) {
